@@ -257,16 +257,30 @@ def run(ctx, repo):
     if not done:
         ctx.finding('R2', '%s::AgeGrader.world_best::convex interpolation of speeds' % AGE, AGE, wb.lineno, 'no speed interpolation found')
     # pfac in find_row_by_distance = (d - d[fx]) / (d[fx1] - d[fx])
-    pf = [n.value for n in ast.walk(frd) if isinstance(n, ast.Assign) and any(ast.unparse(t) == 'pfac' for t in n.targets)
+    # the three names by their role: the function returns (index of the shorter row, index of the longer row, fraction)
+    rets = [r.value for r in ast.walk(frd) if isinstance(r, ast.Return) and isinstance(r.value, ast.Tuple) and len(r.value.elts) == 3
+            and all(isinstance(x, ast.Name) for x in r.value.elts)]
+    lo_n, hi_n, fr_n = (rets[0].elts[0].id, rets[0].elts[1].id, rets[0].elts[2].id) if rets else ('fx', 'fx1', 'pfac')
+    pf = [n.value for n in ast.walk(frd) if isinstance(n, ast.Assign) and any(ast.unparse(t) == fr_n for t in n.targets)
           and any(isinstance(b, ast.BinOp) and isinstance(b.op, ast.Div) for b in ast.walk(n.value))]
     ok = False
+
+    def _strip_float(e):
+        while isinstance(e, ast.Call) and call_name(e) == 'float' and len(e.args) == 1:
+            e = e.args[0]
+        return e
+
+    def _cell(e, idx):
+        # T[idx][c]
+        return isinstance(e, ast.Subscript) and isinstance(e.value, ast.Subscript) and isinstance(e.value.slice, ast.Name) and e.value.slice.id == idx
     for v in pf:
         divs = [b for b in ast.walk(v) if isinstance(b, ast.BinOp) and isinstance(b.op, ast.Div)]
         for dv in divs:
-            num = ast.unparse(dv.left)
-            den = dv.right
-            if isinstance(den, ast.BinOp) and isinstance(den.op, ast.Sub) and 'fx1' in ast.unparse(den.left) and 'fx1' not in ast.unparse(den.right) \
-                    and 'fx' in ast.unparse(den.right) and 'fx1' not in num and 'fx' in num and 'd -' in num.replace('(', '').replace('float', ''):
+            num, den = _strip_float(dv.left), _strip_float(dv.right)
+            if isinstance(den, ast.BinOp) and isinstance(den.op, ast.Sub) and _cell(den.left, hi_n) and _cell(den.right, lo_n) \
+                    and isinstance(num, ast.BinOp) and isinstance(num.op, ast.Sub) and _cell(num.right, lo_n) and isinstance(_strip_float(num.left), ast.Name) \
+                    and ast.dump(num.right) == ast.dump(den.right) \
+                    and ast.dump(den.left.slice) == ast.dump(den.right.slice) and ast.dump(den.left.value.value) == ast.dump(den.right.value.value):
                 ok = True
     if ok:
         ctx.ok('R2', 'pfac = (d - d[fx]) / (d[fx1] - d[fx])')
@@ -498,6 +512,14 @@ def run(ctx, repo):
         if isinstance(n, ast.Tuple) and len(n.elts) == 2 and isinstance(n.elts[0], ast.Constant) and isinstance(n.elts[0].value, str) \
                 and isinstance(n.elts[1], ast.Name) and n.elts[1].id.startswith('PAT_'):
             disp.append((n.elts[0].value, n.elts[1].id))
+    if len(disp) < 2:
+        # not written as a literal table in the function: reconstruct the decision list by probing the folded classifier
+        from .. import fold as _fold2
+        try:
+            tab_, _none = _fold2.probe_first_match(ek, dict(repo.folded(AGE)[0]), None)
+            disp = [(o[1], nm) for nm, _rc, o in tab_ if o[0] == 'returns' and isinstance(o[1], str) and isinstance(nm, str) and nm.startswith('PAT_')]
+        except Exception as e_:
+            raise AnalysisError('event_code_to_kind: (kind, pattern) dispatch table not found (%s)' % e_)
     if len(disp) < 2:
         raise AnalysisError('event_code_to_kind: (kind, pattern) dispatch table not found')
     import re._parser as _sp
